@@ -99,10 +99,8 @@ class MtspAdapter(envcorr.Adapter):
                         sol.append(0)
                 yield sol
 
-    # C04: name the cause of a solo-vs-batched reward difference
+    # C04: a solo-vs-batched reward difference has no known cause any more (0b6c547 fixed the padding defect)
     def reward_diff_key(self, inst, f, rew_solo, rew_batched):
-        if "rnp" in f and int(f["rnp"]) == rew_solo and int(f["reward"]) == rew_batched:
-            return "mtsp:minmax:padding-step-readds-return-leg"
         return "mtsp:batch-dependence:reward"
 
 
@@ -125,9 +123,6 @@ def mtsp_check_reward(ctx, episodes_quick: int = 40, episodes_thorough: int = 25
         n = ctx.rng.choice(ad.sizes(ctx.tier))
         B = ctx.rng.choice([1, 1, 2, 4])
         insts = envcorr.make_batch(ad, ctx, n, B)
-        if ctx.rng.random() < 0.35:  # single-tour episodes of length n (+1 padding) are the only ones `sum` accepts
-            for i in insts:
-                i["m"] = 1
         pad = ctx.rng.choice([0, 0, 1, 2])
         td0 = ad.to_td(insts)
         ep = mc.run_episode_obs(env, td0, envcorr.uniform_chooser(ctx.rng), _mtsp_obs, extra_pad=pad,
@@ -167,34 +162,24 @@ def mtsp_check_reward(ctx, episodes_quick: int = 40, episodes_thorough: int = 25
                 ctx.disagreement("mtsp: minmax reward differs", {"inst": insts[r], "actions": ep.actions[r],
                                                                  "real": real[r], "model": f["reward"]})
             if -int(f["obj"]) != real[r]:
-                explained = padded and int(f["rnp"]) == -int(f["obj"]) and int(f["reward"]) == real[r]
-                ctx.violation("mtsp:minmax:padding-step-readds-return-leg" if explained else "mtsp:minmax:reward-ne-objective",
+                ctx.violation("mtsp:minmax:reward-ne-objective",
                               "minmax reward of the real env differs from the longest closed tour (Lean Spec)",
-                              {"inst": insts[r], "actions": ep.actions[r], "real_reward_ticks": real[r],
-                               "spec_objective_ticks": int(f["obj"]), "reward_without_padding_ticks": int(f["rnp"]),
-                               "lean_line": lines[r]})
+                              {"inst": insts[r], "actions": ep.actions[r], "padded": padded, "real_reward_ticks": real[r],
+                               "spec_objective_ticks": int(f["obj"]), "lean_line": lines[r]})
             # ---- sum
-            model_raises = f["rsum"] == "raise"
-            if (real_sum is None) != model_raises:
-                ctx.disagreement("mtsp: sum-mode raise behaviour differs",
-                                 {"inst": insts[r], "actions": ep.actions[r], "real_raises": real_sum is None, "model": f["rsum"]})
-            elif real_sum is None:
-                ctx.count("mtsp.sum.raises")
-                ctx.violation("mtsp:sum:raises-unless-len-eq-num_loc",
-                              "cost_type='sum': _get_reward raises for a finished mask-confined episode",
+            if real_sum is None:
+                ctx.violation("mtsp:sum:raises", "cost_type='sum': _get_reward raises for a finished mask-confined episode",
                               {"inst": insts[r], "actions": ep.actions[r], "num_loc": n + 1, "len_actions": len(ep.actions[r])})
             else:
+                ctx.count(f"mtsp.sum.len-actions{'=' if len(ep.actions[r]) == n + 1 else '!='}num_loc")
                 if int(f["rsum"]) != real_sum[r]:
                     ctx.disagreement("mtsp: sum reward differs", {"inst": insts[r], "actions": ep.actions[r],
                                                                   "real": real_sum[r], "model": f["rsum"]})
-                elif -int(f["objsum"]) != real_sum[r]:
-                    ctx.count("mtsp.sum.wrong")
-                    ctx.violation("mtsp:sum:tour-closed-last-to-first-not-through-depot",
+                if -int(f["objsum"]) != real_sum[r]:
+                    ctx.violation("mtsp:sum:reward-ne-objective",
                                   "cost_type='sum': reward differs from the summed closed tour lengths (Lean Spec)",
                                   {"inst": insts[r], "actions": ep.actions[r], "real_reward_ticks": real_sum[r],
                                    "spec_objective_ticks": int(f["objsum"]), "lean_line": lines[r]})
-                else:
-                    ctx.count("mtsp.sum.correct")
             ctx.sample({"env": "mtsp", "inst": insts[r], "actions": ep.actions[r], "reward_ticks": real[r],
                         "spec_obj": f.get("obj"), "sum_reward": None if real_sum is None else real_sum[r]})
 
@@ -229,24 +214,17 @@ register(Unit("C03", "mtsp", mc.chunked(mtsp_check_reward),
               drivers=["drv_mtsp"],
               lean_modules=["Rl4co.Props.C03.Mtsp"] if _has("Rl4co/Props/C03/Mtsp.lean") else ["Rl4co.Spec.Mtsp"],
               theorems=_thms("Rl4co/Props/C03/Mtsp.lean", [
-                  Theorem("Rl4co.Mtsp.reward_minmax_eq_objective", "partial",
-                          "minmax reward = −(longest closed tour) for every finished run that is never stepped after "
-                          "finishing (hypothesis: no padding step)"),
-                  Theorem("Rl4co.Mtsp.reward_minmax_counterexample", "proved",
-                          "¬ reward_minmax_statement: one padding step re-adds the last return leg"),
-                  Theorem("Rl4co.Mtsp.reward_sum_counterexample", "proved",
-                          "¬ reward_sum_statement: sum mode raises / closes the tour last→first"),
-                  Theorem("Rl4co.Mtsp.reward_sum_partial", "partial",
-                          "sum reward = −(tour length) for single-tour episodes followed by exactly one depot step")]),
+                  Theorem("Rl4co.Mtsp.reward_minmax_eq_objective", "proved",
+                          "minmax reward = −(longest closed tour) for every finished mask-confined run, padding steps included"),
+                  Theorem("Rl4co.Mtsp.reward_sum_eq_objective", "proved",
+                          "sum reward = −(summed closed tour lengths) for every action list (D 0 0 = 0)")]),
               assumptions=[MTSP_NOTE] + ([] if _has("Rl4co/Props/C03/Mtsp.lean") else [NO_THM])))
 register(Unit("C04", "mtsp", mc.chunked(lambda ctx: mc.check_batch_independence(ctx, MTSP, groups_thorough=400)),
               drivers=["drv_mtsp"],
               lean_modules=["Rl4co.Props.C04.Mtsp"] if _has("Rl4co/Props/C04/Mtsp.lean") else ["Rl4co.Spec.Mtsp"],
               theorems=_thms("Rl4co/Props/C04/Mtsp.lean", [
-                  Theorem("Rl4co.Mtsp.pad_noop_partial", "partial",
-                          "a padding step keeps done and the mask; it keeps the reward state iff the row already stands "
-                          "at the depot (second and later padding steps)"),
-                  Theorem("Rl4co.Mtsp.pad_noop_counterexample", "proved", "¬ pad_noop_statement (first padding step changes the reward)"),
+                  Theorem("Rl4co.Mtsp.pad_noop", "proved",
+                          "a padding step after done changes neither done, nor the mask, nor the minmax reward"),
                   Theorem("Rl4co.Mtsp.batchStep_eq_map", "proved",
                           "the batched step with its row-0 first-step flag equals the row-wise step on lock-step batches")]),
               assumptions=[MTSP_NOTE, "the batched code is compared row-wise against the per-instance model"]
@@ -330,18 +308,12 @@ def md_header(inst, mode, envK=None, specK=None):
     return f"{N} {K} {split0} {inst['K']} {int(inst['open'])} {MODES.index(mode)} {inst['w4']} {W_DEN} {sK} {inst['n'] // 2}"
 
 
-def md_line(inst, actions, mode="minsum", lead=None, env_caps=None, envK=None):
+def md_line(inst, actions, mode="minsum", env_caps=None, envK=None):
     D = md_dist_ticks(inst["pts"], inst["dist"])
     flat = " ".join(str(v) for row in D for v in row)
     caps = inst["caps"] if env_caps is None else env_caps
-    s = (f"mdcpdp.episode {md_header(inst, mode, envK=envK)} | " + " ".join(map(str, caps)) + " | "
-         + " ".join(map(str, inst["caps"])) + " | " + flat + " | " + " ".join(map(str, actions)))
-    if lead is not None:
-        li, la = lead
-        D0 = md_dist_ticks(li["pts"], li["dist"])
-        s += (f" | {md_header(li, mode, envK=envK)} | " + " ".join(map(str, li["caps"] if env_caps is None else env_caps)) + " | "
-              + " ".join(str(v) for row in D0 for v in row) + " | " + " ".join(map(str, la)))
-    return s
+    return (f"mdcpdp.episode {md_header(inst, mode, envK=envK)} | " + " ".join(map(str, caps)) + " | "
+            + " ".join(map(str, inst["caps"])) + " | " + flat + " | " + " ".join(map(str, actions)))
 
 
 def _md_obs(td, r):
@@ -368,10 +340,8 @@ def md_run(ctx, envs, insts, pad=0, forced=None, cap_tensor=None, reward_mode="m
 
 
 def md_ask(ctx, insts, ep, mode="minsum", env_caps=None, envK=None):
-    lines = []
-    for r, inst in enumerate(insts):
-        lead = None if r == 0 else (insts[0], ep.actions[0])
-        lines.append(md_line(inst, ep.actions[r], mode, lead=lead, env_caps=env_caps, envK=envK))
+    """every row of a batch is compared with the per-row model run on its own actions"""
+    lines = [md_line(inst, ep.actions[r], mode, env_caps=env_caps, envK=envK) for r, inst in enumerate(insts)]
     return lines, ctx.driver.ask_many(lines)
 
 
@@ -506,12 +476,15 @@ def md_reward_ticks(env, td, acts, mode, insts):
     return [rl.ticks(v) * (W_DEN if mode == "lateness" else 1) for v in vals]
 
 
-def md_reward_key(f, real, row):
-    """name the cause of reward ≠ objective via the Spec's single-clause variants"""
+def md_reward_key(f, real):
+    """Name the cause of reward ≠ objective.  A known key is used only when the REAL reward is exactly the value
+    the Spec predicts with that single clause switched off; anything else is a fresh violation."""
     if real == -int(f["objA"]):
         return "mdcpdp:close-mode:last-return-leg-not-charged"
-    if real == -int(f["objB"]) or real == -int(f["objAB"]):
+    if real == -int(f["objB"]):
         return "mdcpdp:current-depot-stuck:lengths-and-clock-shared-by-all-vehicles"
+    if real == -int(f["objAB"]):
+        return "mdcpdp:current-depot-stuck:shared-lengths+close-mode:last-return-leg-not-charged"
     return "mdcpdp:reward-ne-objective"
 
 
@@ -545,7 +518,6 @@ def md_check_reward(ctx, episodes_quick=40, episodes_thorough=2000):
                 if int(f["reward"]) != real[r]:
                     ctx.disagreement(f"mdcpdp: {mode} reward differs", {"inst": insts[r], "actions": ep.actions[r], "row": r,
                                                                         "real": real[r], "model": f["reward"]})
-                    continue
                 # judge against the problem statement; the objective is only defined for feasible solutions
                 # (episodes that violate a clause of the problem are C01's business)
                 if f["feas"] != "1":
@@ -554,27 +526,17 @@ def md_check_reward(ctx, episodes_quick=40, episodes_thorough=2000):
                 if mode == "minsum" and cfg["open"] and f["feas"] == "1" and f["objopen"] != f["obj"]:
                     ctx.disagreement("mdcpdp: Spec inconsistency: declarative open length ≠ route-level minsum objective",
                                      {"inst": insts[r], "actions": ep.actions[r], "openLength": f["objopen"], "objMinsum": f["obj"]})
-                if mode == "minsum" and cfg["open"] and r == 0 and real[r] != -int(f["objopen"]):
+                if mode == "minsum" and cfg["open"] and real[r] != -int(f["objopen"]):
                     ctx.violation("mdcpdp:open-minsum-ne-open-length", "open-mode minsum reward ≠ declarative open length (theorem reward_minsum_open)",
                                   {"inst": insts[r], "actions": ep.actions[r], "real": real[r], "openLength": f["objopen"]})
                 if real[r] != -int(f["obj"]):
-                    if r > 0 and int(f["rnp"]) is not None and _md_solo_explains(ctx, insts[r], ep.actions[r], mode, f):
-                        key = "mdcpdp:batch:step-length-of-row-0-used-for-every-row"
-                    else:
-                        key = md_reward_key(f, real[r], r)
+                    key = md_reward_key(f, real[r])
                     ctx.violation(key, f"{mode} reward of the real env differs from the objective of the executed solution (Lean Spec)",
                                   {"inst": insts[r], "actions": ep.actions[r], "row": r, "B": B, "mode": mode,
                                    "real_reward_ticks": real[r], "spec_objective_ticks": int(f["obj"]), "lean_line": lines[r][:2000]})
                 else:
                     ctx.count(f"mdcpdp.{mode}.reward-correct")
         ctx.sample({"env": "mdcpdp", "inst": insts[0], "actions": ep.actions[0]})
-
-
-def _md_solo_explains(ctx, inst, actions, mode, f_batched):
-    """a row ≥ 1 of a batch: does the SOLO model run of the same actions give a different reward? then the difference
-    to the objective is (at least partly) the row-0 leak"""
-    f = parse_fields(ctx.driver.ask(md_line(inst, actions, mode)))
-    return "reward" in f and f["reward"] != f_batched["reward"]
 
 
 def md_check_batch(ctx, groups_quick=12, groups_thorough=500):
@@ -597,12 +559,12 @@ def md_check_batch(ctx, groups_quick=12, groups_thorough=500):
         lines, replies = md_ask(ctx, insts, ep, mode)
         fs = []
         for r in range(B):
-            f = envcorr.compare_trace(ctx, MD, insts[r], ep.actions[r], ep.masks[r], ep.done[r], replies[r], "C04 batched row vs batch model")
+            f = envcorr.compare_trace(ctx, MD, insts[r], ep.actions[r], ep.masks[r], ep.done[r], replies[r], "C04 batched row vs per-row model")
             fs.append(f)
             if "reward" in f:
                 md_compare_state(ctx, insts[r], ep, r, f, "C04 batched")
                 if int(f["reward"]) != rew_b[r]:
-                    ctx.disagreement("mdcpdp: batched reward differs from the batch model", {"inst": insts[r], "row": r,
+                    ctx.disagreement("mdcpdp: batched reward differs from the per-row model", {"inst": insts[r], "row": r,
                                      "actions": ep.actions[r], "real": rew_b[r], "model": f["reward"]})
         for r in range(B):
             d = ep.done[r]
@@ -620,18 +582,16 @@ def md_check_batch(ctx, groups_quick=12, groups_thorough=500):
                               {"inst": insts[r], "actions": solo_actions, "row": r})
             rew_s = md_reward_ticks(env1, ep1.td, rl.actions_tensor(ep1), mode, [insts[r]])[0]
             if rew_s != rew_b[r]:
-                fsolo = parse_fields(ctx.driver.ask(md_line(insts[r], ep.actions[r], mode)))
-                if r > 0 and fin == len(ep.actions[r]) and fsolo.get("reward") == str(rew_s) and fs[r].get("reward") == str(rew_b[r]):
-                    key = "mdcpdp:batch:step-length-of-row-0-used-for-every-row"
-                elif fin < len(ep.actions[r]) and fs[r].get("rnp") is not None and fsolo.get("rnp") == str(rew_s):
-                    key = ("mdcpdp:padding-step-adds-last-return-leg" if r == 0
-                           else "mdcpdp:batch:step-length-of-row-0-used-for-every-row")
+                # known cause: the row was stepped after done in close mode and the padding step added the last way back —
+                # recognised only if the model reproduces BOTH values (padded = batched, first finished state = solo)
+                if (fin < len(ep.actions[r]) and not cfg["open"] and fs[r].get("reward") == str(rew_b[r])
+                        and fs[r].get("rnp") == str(rew_s)):
+                    key = "mdcpdp:padding-step-adds-last-return-leg"
                 else:
                     key = "mdcpdp:batch-dependence:reward"
                 ctx.violation(key, "reward differs between the solo run and the batched run of the same instance with the same actions",
                               {"inst": insts[r], "row": r, "B": B, "mode": mode, "batched_actions": ep.actions[r],
-                               "solo_reward_ticks": rew_s, "batched_reward_ticks": rew_b[r], "row0": insts[0],
-                               "row0_actions": ep.actions[0]})
+                               "solo_reward_ticks": rew_s, "batched_reward_ticks": rew_b[r]})
         ctx.sample({"env": "mdcpdp", "cfg": cfg, "B": B, "pad": pad, "mode": mode})
 
 
@@ -691,9 +651,16 @@ def md_check_completeness(ctx, insts_quick=8, insts_thorough=60):
                 a = c[t]
                 if f.get("adm") == "1":
                     ctx.disagreement("mdcpdp: model admits, real mask blocks", {"inst": inst, "solution": c, "step": t})
-                if a < K and a != 0 and a in c[:t]:
+                # the vehicle that is out at step t and what it carries
+                opened = [x for k, x in enumerate(c[:t]) if x < K and x not in c[:k]]
+                veh = opened[-1] if opened else None
+                last_open = max(k for k, x in enumerate(c[:t]) if x == veh and x not in c[:k]) if veh is not None else 0
+                onboard = sum(1 for x in c[last_open:t] if K <= x < K + n // 2) - sum(1 for x in c[last_open:t] if x >= K + n // 2)
+                if a < K and a != 0 and a == veh and m[0] == "1":
+                    # the vehicle returns to its OWN depot; the mask offers node 0 instead
                     key = "mdcpdp:current-depot-stuck:return-to-own-depot-not-offered"
-                elif K <= a < K + n // 2 and any(x != inst["caps"][0] for x in inst["caps"]):
+                elif K <= a < K + n // 2 and veh not in (None, 0) and inst["caps"][0] <= onboard < inst["caps"][veh]:
+                    # a pickup that fits the vehicle's own capacity but not depot 0's
                     key = "mdcpdp:current-depot-stuck:capacity-of-depot-0-applied"
                 else:
                     key = "mdcpdp:mask-hides-feasible"
@@ -709,8 +676,8 @@ def md_check_completeness(ctx, insts_quick=8, insts_thorough=60):
                     "example": feas[0][0] if feas else None})
 
 
-MD_NOTE = ("MDCPDPEnv (start_mode='order') modelled per batch row over integer ticks (Rl4co/Env/Mdcpdp.lean) including the two "
-           "row-0 broadcasts of `_step`; coordinates→distance arithmetic (L1/L2) and float32 rounding are outside the model "
+MD_NOTE = ("MDCPDPEnv (start_mode='order') modelled per batch row over integer ticks (Rl4co/Env/Mdcpdp.lean); every row of a "
+           "real batch is compared with the per-row model; coordinates→distance arithmetic (L1/L2) and float32 rounding are outside the model "
            "(integral point sets make them exact); start_mode='random' and reward_mode='lateness_square' are not modelled")
 
 
@@ -743,9 +710,8 @@ register(Unit("C03", "mdcpdp", mc.chunked(md_check_reward), drivers=["drv_mdcpdp
 register(Unit("C04", "mdcpdp", mc.chunked(md_check_batch), drivers=["drv_mdcpdp"],
               lean_modules=_mods("Rl4co/Props/C04/Mdcpdp.lean", "Rl4co.Props.C04.Mdcpdp", "Rl4co.Spec.Mdcpdp"),
               theorems=_thms("Rl4co/Props/C04/Mdcpdp.lean", [
-                  Theorem("Rl4co.Mdcpdp.batch_rows_counterexample", "proved", "¬ batch_rows_statement: rows ≥ 1 are charged row 0's step length"),
-                  Theorem("Rl4co.Mdcpdp.batchStep_row0", "partial", "row 0 of a batch is stepped exactly as on its own"),
-                  Theorem("Rl4co.Mdcpdp.stepWith_lead_indep", "partial", "everything but current_length / arrivetime_record / the done-bit of the mask is independent of row 0"),
+                  Theorem("Rl4co.Mdcpdp.batchStep_eq_map", "proved", "the batched step is the per-row step (no statement reads another row)"),
+                  Theorem("Rl4co.Mdcpdp.batch_rows", "proved", "every row of the batched step, at any position of any batch, is the row stepped on its own"),
                   Theorem("Rl4co.Mdcpdp.pad_noop_open", "partial", "open mode: a step after done keeps done, mask and minsum reward"),
                   Theorem("Rl4co.Mdcpdp.pad_noop_counterexample", "proved", "¬ pad_noop_statement (close mode: the padding step adds the last way back)")]),
               assumptions=[MD_NOTE] + ([] if _has("Rl4co/Props/C04/Mdcpdp.lean") else [NO_THM])))
